@@ -43,6 +43,7 @@ type Profile struct {
 	PGlobal       int  // % of cases run with a global conf.Coercers override (String, Bool or Time) installed
 	PStructIn     int  // % of top-level struct records handed over as a Go struct value instead of a map
 	PTopPtrRecord int  // % of top-level schemas that are Ptr(Struct) over a flat record with exported keys
+	PSiblings     int  // % of top-level structs given a catching string field whose test usually fails, next to a slice or struct field with at least two tests
 	PLongOneOf    int  // % of built-in tests on strings and numbers that are a OneOf over a long list with no custom message
 	NilBias       bool // whole inputs are re-drawn (up to 10 times) until the implementation reports no issues
 	Repeats       int  // how many times a case is re-run (with reshuffled schema insertion orders and varying pool states)
@@ -453,6 +454,28 @@ func (g *Gen) strct(depth int) *Node {
 		}
 		n.ExtraFirst = r.P(50)
 	}
+	if depth == 0 && g.P.PSiblings > 0 && r.P(g.P.PSiblings) {
+		// "what happened at a sibling": a primitive whose Catch swallows a failing test, and a composite
+		// field (visited before or after it, as the runtime pleases) with several tests of its own
+		cf := &Node{Kind: KString, Tests: []TestSpec{{Builtin: "min", N: 9}}}
+		l := g.leaf(KString)
+		cf.Catch = &l
+		n.Fields = append(n.Fields, Field{Key: "cf", Node: cf})
+		var comp *Node
+		for _, f := range n.Fields {
+			if f.Node.Kind == KSlice || f.Node.Kind == KStruct {
+				comp = f.Node
+				break
+			}
+		}
+		if comp == nil {
+			comp = &Node{Kind: KSlice, Elem: g.prim(KString)}
+			n.Fields = append(n.Fields, Field{Key: "cs", Node: comp})
+		}
+		for len(comp.Tests) < 2 {
+			comp.Tests = append(comp.Tests, g.test(comp))
+		}
+	}
 	g.tests(n)
 	if depth == 0 {
 		// a struct-level test reported under the key of one of the fields (the "passwords must match"
@@ -526,6 +549,21 @@ func ProfileByName(name string) Profile {
 		p.PPtr = 25
 		p.PPT = 5
 		p.PCatch = 30
+	case "C01s":
+		// what happens at one field (a Catch that fires, a failing test, a panic-free error) next to composite siblings
+		// that carry several tests of their own
+		p.MaxFields = 5
+		p.PValid = 85
+		p.PAbsent = 8
+		p.PCatch = 40
+		p.PSlice = 35
+		p.PStruct = 30
+		p.PTests = 85
+		p.PUserTest = 25
+		p.PPT = 0
+		p.PDefault = 15
+		p.NilBias = true
+		p.PSiblings = 60
 	case "C01d":
 		// values the schema itself places (Default, Catch) at every depth, everything else valid
 		p.PValid = 90
